@@ -39,8 +39,13 @@ pub fn quiescent_clean(trace: &[String]) -> (bool, String) {
         }
     }
     let complete = done.len() == issued && started_streams.iter().all(|s| finished.contains(s)) && !kinds.iter().any(|k| k == "unbind");
-    if ended || !complete {
+    if !complete {
         return (true, String::from("not applicable"));
+    }
+    if ended {
+        // the driver is gone and its maps with it; what is left is the ID table shared by the handles:
+        // every operation has failed or completed, so no ID may remain reserved (F22)
+        return (tbl.ends_with("[]"), format!("ended | {}", tbl));
     }
     (last_maps.replace(", ", ",") == "drv maps r=[] s=[]" && tbl.ends_with("[]"), format!("{} | {}", last_maps, tbl))
 }
@@ -56,6 +61,11 @@ pub fn run(thorough: bool, mut rng: Rng, mut out: Out) {
             Step::Issue { kind: OpKind::Single, tmo_ms: None }, Step::Settle,
             Step::Issue { kind: OpKind::Abandon(1), tmo_ms: None }, Step::Settle, Step::Table]),
         ("F15 scrub overtakes its request", f15_script()),
+        ("F22 operations that fail with the connection, and after it, leave their IDs reserved", vec![
+            Step::Issue { kind: OpKind::Single, tmo_ms: None }, Step::Settle, Step::Close, Step::Settle,
+            Step::Issue { kind: OpKind::Single, tmo_ms: None }, Step::Settle,
+            Step::Issue { kind: OpKind::Search, tmo_ms: None }, Step::Settle,
+            Step::Issue { kind: OpKind::Single, tmo_ms: Some(5) }, Step::Settle, Step::Table]),
     ];
     for (name, sc) in corpus {
         for rep in 0..if name.starts_with("F15") { 30 } else { 1 } {
